@@ -14,6 +14,7 @@ mod c05;
 mod c01;
 mod c02;
 mod c07;
+mod c13;
 
 pub struct Opts {
     pub tier_thorough: bool,
@@ -58,6 +59,7 @@ fn main() {
         "c04" => (c04::gen, c04::exec),
         "c05" => (c05::gen, c05::exec),
         "c07" => (c07::gen, c07::exec),
+        "c13" => (c13::gen, c13::exec),
         _ => { eprintln!("unknown property {}", prop); std::process::exit(2); }
     };
     if let Some(path) = &o.replay {
